@@ -545,6 +545,17 @@ def r6_exact_index_use(repo=None, rid="C01.R6"):
                     ok = True
             elif isinstance(p, ast.Attribute) and p.attr in ("shape", "dtype", "ndim", "size"):
                 ok = True
+            # an explicit conversion of (a slice of) the index to a signed 64-bit integer array is exact as well
+            q2 = p
+            if isinstance(q2, ast.Subscript):
+                q2 = m.parents.get(q2)
+            if isinstance(q2, ast.Attribute) and q2.attr == "astype":
+                callp = m.parents.get(q2)
+                if isinstance(callp, ast.Call) and callp.args and norm(ast.unparse(callp.args[0])) in (
+                        "np.int64", "'int64'", "int", "'i8'", "np.dtype('int64')"):
+                    ok = True
+            if isinstance(q2, ast.Call) and pyfront.call_name(q2) in ("np.int64",) :
+                ok = True
             site = "%s:%s %s `%s`" % (m.rel, n.lineno, q, norm(ast.unparse(m.parents.get(p, p)))[:70])
             if ok:
                 r.ok(site, "index entry converted with int() before use (exact Python integer arithmetic)")
